@@ -25,6 +25,7 @@ META["explanation"] += " " + '(PR-expmarker, PR-accumulate: shared with C06) an 
 META["explanation"] += " " + '(ACC-wrap) a decimal accumulation in a loop bounded only by the end of the input is under a bound on the accumulator itself (the mantissa loops are bounded by a local 19-digit window); one named exception, the unchecked FastStringToNumber.'
 META["explanation"] += " " + '(SB-window) the two sibling computations of the 19-digit window clamp from the cursor the window starts at.'
 META["explanation"] += " " + '(FIELD-fit) in powerOfPositiveTen the biased exponent is found to be at most 2046 on every path before it is shifted into the 11-bit exponent field (must-analysis over the comparisons of that local with 2046/2047).'
+META["explanation"] += " " + '(UNS-shift) in powerOfPositiveTen an unsigned difference used as a shift amount is proven by E-ZONE not to wrap below zero (the unguarded bit - 53 of powerOfNegativeTen is listed as not decided).'
 
 U64 = (1 << 64) - 1
 
@@ -224,6 +225,7 @@ def run(ctx):
     rules.append(rule_accumulator_wrap(ctx, m))
     rules.append(rule_window(ctx, m))
     rules.append(rule_field_fit(ctx, m))
+    rules.append(rule_unsigned_shift(ctx, m))
     return rules
 
 
@@ -335,4 +337,64 @@ def rule_field_fit(ctx, m):
                     work.append(s_)
         r.ob(f.q, f.text(x)[:40], bool(at), "`%s` was found to be at most 2046 on every path to the shift" % ln["n"] if at else
              "`%s` is shifted into the 11-bit exponent field without being compared with 2046: a sum of 2048 or more lands in the sign bit (4e308 parsed to -2.5e-309)" % ln["n"], f.loc(x))
+    return r
+
+
+
+def rule_unsigned_shift(ctx, m):
+    """UNS-shift: a shift amount written as an unsigned difference (bit - 53, 52 - bit) is only meaningful when the difference is
+    not negative; one below zero it is 4294967295 and the shift is undefined.  In powerOfPositiveTen the two amounts sit in the
+    two branches of a test of `bit` against the mantissa width; E-ZONE proves at each shift that minuend >= subtrahend.  (The
+    unguarded `bit - 53` of powerOfNegativeTen relies on the magnitude of the scaled number and is listed as not decided.)"""
+    from qlib import dataflow
+    from qlib.zone import Zone, Lin, ContractTable
+    r = Rule("UNS-shift", "an unsigned difference used as a shift amount is proven not to wrap below zero", floor=2)
+    undecided = []
+    for q in ("Qentem::Digit::powerOfPositiveTen", "Qentem::Digit::powerOfNegativeTen"):
+        fs = [f for f in m.functions if not f.inst and f.cfg and f.q == q]
+        if not fs:
+            r.broke("%s not found" % q)
+            continue
+        f = fs[0]
+        ctx.note_fn(f)
+        z = Zone(m, f, ContractTable({}))
+        states = dataflow.run(f, z)
+        blocks = f.blocks()
+        for bid, st0 in states.items():
+            st = z.copy(st0)
+            for e in blocks[bid]["el"]:
+                x = e.get("n")
+                if isinstance(x, int) and not e.get("k") and not st.bottom:
+                    n = f.nodes[x]
+                    amount_node = None
+                    if n["k"] == "CompoundAssignOperator" and n["op"] in ("<<=", ">>="):
+                        amount_node = n["ch"][1]
+                    elif n["k"] == "CXXOperatorCallExpr" and n.get("op") in ("<<=", ">>=") and len(f.call_args(x)) == 2:
+                        amount_node = f.call_args(x)[1]
+                    if amount_node is not None:
+                        an = f.nodes[f.strip(amount_node)]
+                        if an["k"] == "BinaryOperator" and an["op"] == "-":
+                            A, B = z.lin(st, an["ch"][0]), z.lin(st, an["ch"][1])
+                            if A is not None and B is not None:
+                                if st.lin_le0(B - A):
+                                    r.ob(f.q, f.text(x)[:50], True, "minuend >= subtrahend is proven on every path to the shift", f.loc(x))
+                                elif st.lin_le0((A - B).shift(1)):
+                                    r.ob(f.q, f.text(x)[:50], False, "the engine proves the difference NEGATIVE here", f.loc(x))
+                                else:
+                                    # a dominating test of the same variable that does not imply the bound is a violation; no test at all: not decided
+                                    vars_ = set(f.nodes[y].get("d") for y in f.walk(amount_node) if f.nodes[y]["k"] == "DeclRefExpr")
+                                    tested = False
+                                    up = f.parents().get(x)
+                                    while up is not None:
+                                        un = f.nodes[up]
+                                        if un["k"] == "IfStmt" and any(f.nodes[y].get("d") in vars_ for y in f.walk(un["cond"])):
+                                            tested = True
+                                        up = f.parents().get(up)
+                                    if tested:
+                                        r.ob(f.q, f.text(x)[:50], False, "the test that guards this shift does not exclude `%s` < `%s`: one below, the unsigned amount wraps to 4294967295 (a shift by more than the width)" % (
+                                            f.text(an["ch"][0]), f.text(an["ch"][1])), f.loc(x))
+                                    else:
+                                        undecided.append("%s %s at %s" % (f.name, f.text(x)[:40], f.loc(x)[0] if isinstance(f.loc(x), tuple) else f.loc(x)))
+                z.transfer(f, st, e, blocks[bid])
+    r.notes.append("not decided (no guarding test; relies on the magnitude of the scaled number): " + "; ".join(sorted(set(undecided))))
     return r
